@@ -13,6 +13,7 @@ import (
 	cid "github.com/ipfs/go-cid"
 	datastore "github.com/ipfs/go-datastore"
 	"github.com/ipfs/go-datastore/query"
+	"github.com/libp2p/go-libp2p/core/network"
 	"github.com/libp2p/go-libp2p/core/peer"
 	mh "github.com/multiformats/go-multihash"
 )
@@ -45,7 +46,7 @@ type World struct {
 	OnEffect   func(e *Effect)
 	parks      []*Park
 	parkSeq    int
-	streamPend []*StreamPend
+	streams    []*SimStream
 }
 
 func NewWorld() *World {
@@ -205,7 +206,7 @@ type Inc struct {
 	subs     map[string][]*Sub
 	view     map[string]map[int]bool
 	pubseq   int
-	handlers map[string]func(*SimStream) // libp2p stream handlers (stub host)
+	handlers map[string]network.StreamHandler // libp2p stream handlers (stub host)
 	Ctx      context.Context
 	Cancel   context.CancelFunc
 	offline  bool // a local block miss returns not-found at once (like an offline IPFS node)
@@ -258,7 +259,7 @@ func (n *Node) Boot() *Inc {
 	defer w.mu.Unlock()
 	n.incN++
 	ctx, cancel := context.WithCancel(context.Background())
-	inc := &Inc{Node: n, N: n.incN, subs: map[string][]*Sub{}, view: map[string]map[int]bool{}, handlers: map[string]func(*SimStream){}, Ctx: ctx, Cancel: cancel}
+	inc := &Inc{Node: n, N: n.incN, subs: map[string][]*Sub{}, view: map[string]map[int]bool{}, handlers: map[string]network.StreamHandler{}, Ctx: ctx, Cancel: cancel}
 	n.Inc = inc
 	return inc
 }
